@@ -139,10 +139,13 @@ func init() {
 		Runs: []Run{
 			{Pkg: "fasthttp", Func: "vhC08SmallBuffers", Quick: map[string]int{"bufLen": 3}, Thorough: map[string]int{"bufLen": 5}},
 			{Pkg: "fasthttp", Func: "vhC08RequestHeadNoOverRead", Quick: map[string]int{"holeLen": 2, "contLen": 2}, Thorough: map[string]int{"holeLen": 3, "contLen": 2}},
+			{Pkg: "fasthttp", Func: "vhC08ChunkSizeLine"},
+			{Pkg: "fasthttp", Func: "vhC08SplitReads"},
 		},
 		Assume: []string{
 			"no-panic/termination: the engine turns any panic, out-of-range index/slice, nil dereference or step-budget overrun on any explored path into a violation; inputs are fully symbolic buffers of length ≤ bufLen, plus the templated request heads of vhC08RequestHeadNoOverRead for the no-over-read clause",
-			"bodies, trailers, multipart forms, body limits, read-chunk splits and buffers beyond the stated lengths are outside this check",
+			"chunk-size lines of 14..17 arbitrary hex digits in a chunked request or response with a symbolic body limit in [1,8]; complete chunked-with-trailer and fixed-length requests/responses (two symbolic body bytes) delivered in two reads split inside the last 14 bytes or inside the head, followed by further bytes: the reader terminates, yields the same body and trailer, and consumes nothing beyond the message",
+			"multipart forms, long bodies and buffers beyond the stated lengths are outside this check",
 		},
 	})
 	register(&Property{
